@@ -6,7 +6,7 @@
 (* <<property id, predicate name>>.                                         *)
 (***************************************************************************)
 EXTENDS Naturals, Integers, Sequences, FiniteSets, SequencesExt,
-        FiniteSetsExt, Functions, TLC, Text, Vlq, SMap, Sem, Attr, Compose, Rope, RopeM, ReplReq, EncM, DecM, SplitM, ReplaceM, ConcatM, HashM, LeafM, CombineM, TreeM, TreeC
+        FiniteSetsExt, Functions, TLC, Text, Vlq, VlqW, SMap, Sem, Attr, Compose, Rope, RopeM, ReplReq, EncM, DecM, SplitM, ReplaceM, ConcatM, HashM, LeafM, CombineM, TreeM, TreeC
 
 NREG == 16
 EmptyHeap == [i \in 0..(NREG - 1) |-> Nil]
@@ -414,6 +414,19 @@ C12Holds(c, r) ==
          IN /\ (r.out.m # <<>> => WellFormedMappings(r.out.m[1]))
             /\ [k \in 1..Len(dec) |-> <<dec[k].gl, dec[k].gc, dec[k].si, dec[k].ol, dec[k].ni>>]
                  = expected
+    \* the whole u32 range (VlqW.tla): what the format reads out of the produced string is the input
+    \* (no segment of these programs may be dropped), the crate's own decoder reads the same, a second
+    \* encoding is stable, and the line-only encoder keeps file and line of each line's first segment
+    [] c = <<"C12", "wide_decodes_to_input">> ->
+         LET d == WDecode(r.out.m) IN d.ok /\ d.segs = r.segs
+    [] c = <<"C12", "wide_roundtrip">> -> r.out.dec = r.segs
+    [] c = <<"C12", "wide_reencode_stable">> -> r.out.re = r.out.m
+    [] c = <<"C12", "wide_lines_only_first_mapped">> ->
+         /\ r.out.lm # <<>>
+         /\ LET d == WDecode(r.out.lm[1])
+            IN /\ d.ok
+               /\ {<<d.segs[i].gl, d.segs[i].si, d.segs[i].ol>> : i \in 1..Len(d.segs)} = WFirstPerLine(r.segs)
+               /\ Len(d.segs) = Cardinality(WFirstPerLine(r.segs))
     [] c = <<"C12", "vlq_digits">> ->
          /\ Len(r.out.digits) = r.hi - r.lo + 1
          /\ \A i \in 1..Len(r.out.digits) :
@@ -524,6 +537,10 @@ C14Holds(c, r, st) ==
          st.obs[<<r.a, "hash">>] = st.obs[<<r.b, "hash">>]
     [] c[2] = "equal_implies_same_answers" ->
          /\ st.obs[<<r.a, "source">>].t = st.obs[<<r.b, "source">>].t
+         /\ (HasObs(st, <<r.a, "buffer">>) /\ HasObs(st, <<r.b, "buffer">>)) =>
+              st.obs[<<r.a, "buffer">>].b = st.obs[<<r.b, "buffer">>].b
+         /\ (HasObs(st, <<r.a, "size">>) /\ HasObs(st, <<r.b, "size">>)) =>
+              st.obs[<<r.a, "size">>].n = st.obs[<<r.b, "size">>].n
          /\ \A col \in BOOLEAN :
               (HasObs(st, <<r.a, "map", col>>) /\ HasObs(st, <<r.b, "map", col>>)) =>
                 LET text == st.obs[<<r.a, "source">>].t
@@ -598,6 +615,16 @@ ValOfDoc(fields) ==
 C15Holds(c, r) ==
   CASE c[2] = "serialises" -> r.out.res = "ok"
     [] c[2] = "writer_equals_json" -> r.out.writer_ok /\ r.out.writer = r.out.json
+    \* writers that take less than they are offered (one byte, seven bytes per call, one interrupted
+    \* call) still receive the whole document; a writer that stops taking bytes half way never
+    \* makes to_writer report success, and has received a prefix of the document
+    [] c[2] = "writer_short_writes" ->
+         /\ r.out.w_chunky.ok /\ r.out.w_chunky.w = r.out.json
+         /\ r.out.w_chunk7.ok /\ r.out.w_chunk7.w = r.out.json
+         /\ r.out.w_intr.ok /\ r.out.w_intr.w = r.out.json
+         /\ \A x \in {r.out.w_zero, r.out.w_err} :
+              /\ IsPrefix(x.w, r.out.json)
+              /\ x.ok => x.w = r.out.json
     [] c[2] = "document_matches_value" ->
          /\ r.out.doc # <<>>
          /\ LET d == r.out.doc[1]
@@ -727,7 +754,7 @@ Checks(r, st) ==
               THEN {<<"C05", "rope_is_splice">>} ELSE {})
       [] r.op = "writer" -> {<<"C07", "writer">>}
       [] r.op = "stream" ->
-           LET dom == AsciiConsistent(TreeOf(r, st))
+           LET dom == PosDomain(TreeOf(r, st))
            IN (IF ~r.final
                  THEN {<<"C01", "chunks_have_text">>, <<"C01", "reassemble">>}
                       \* ... and to what source() itself answered on this value
@@ -760,7 +787,7 @@ Checks(r, st) ==
       [] r.op = "map" ->
            (IF "tid" \notin DOMAIN r /\ "after" \notin DOMAIN r /\ TreeCDomain(TreeOf(r, st)) /\ SharedNamesAgreeInTree(TreeOf(r, st))
               THEN {<<"DRIFT", "tree_map_follows_TreeC">>} ELSE {}) \cup
-           LET dom == AsciiConsistent(TreeOf(r, st))
+           LET dom == PosDomain(TreeOf(r, st))
                seen == <<r.r, "stream", r.columns, FALSE>> \in DOMAIN st.obs
            IN (IF dom /\ r.out.map # <<>>
                  THEN {<<"C11", "map_charset">>, <<"C11", "map_well_formed">>,
@@ -801,7 +828,8 @@ Checks(r, st) ==
       [] r.op = "to_json" ->
            {<<"C15", "serialises">>} \cup
            (IF r.out.res = "ok"
-              THEN {<<"C15", "writer_equals_json">>, <<"C15", "document_matches_value">>,
+              THEN {<<"C15", "writer_equals_json">>, <<"C15", "writer_short_writes">>,
+                    <<"C15", "document_matches_value">>,
                     <<"C15", "round_trip">>}
               ELSE {})
       [] r.op = "parse_doc" ->
@@ -812,6 +840,9 @@ Checks(r, st) ==
                    <<"C12", "kept_is_subsequence">>, <<"C12", "reencode_stable">>,
                    <<"DRIFT", "full_encoder_follows_EncM">>}
              ELSE {}
+      [] r.op = "codec_wide" ->
+           {<<"C12", "wide_decodes_to_input">>, <<"C12", "wide_roundtrip">>, <<"C12", "wide_reencode_stable">>,
+            <<"C12", "wide_lines_only_first_mapped">>}
       [] r.op = "decode" ->
            (IF WellFormedMappings(r.m) THEN {<<"C12", "decoder_matches_format">>} ELSE {})
            \cup (IF ~r.out.big /\ ~DecodeM(r.m).big THEN {<<"DRIFT", "decoder_follows_DecM">>} ELSE {})
@@ -843,8 +874,10 @@ Holds(c, r, st) ==
          LET buf == BufOf(t)
          IN /\ IsPrefix(r.out.w, buf)
             /\ r.out.res = "ok" => r.out.w = buf
-            /\ r.kind \in {"ok", "intr", "chunky"} => r.out.res = "ok"
-            /\ (r.kind \in {"err", "zero"} /\ r.k < Len(buf)) => r.out.res = "err"
+            /\ r.kind \in {"ok", "intr", "chunky", "chunk7"} => r.out.res = "ok"
+            \* "flaky" refuses one call and accepts the later ones: the error is returned and nothing
+            \* is written after it (what was written stays a prefix)
+            /\ (r.kind \in {"err", "zero", "flaky"} /\ r.k < Len(buf)) => r.out.res = "err"
     [] c = <<"C01", "chunks_have_text">> ->
          \A i \in 1..Len(r.out.ev) :
            r.out.ev[i].t = "C" => r.out.ev[i].x # <<>>
